@@ -140,3 +140,62 @@ def run_task(task):
     if isinstance(task, StructTask):
         return verify_struct(task)
     raise TypeError(task)
+
+
+# ---------------------------------------------------------------------------------------------------------------------
+# Isolated runs: every task is generated and discharged in its own process forked from the same parent state, so the text of its
+# queries (z3 term ids decide argument orders in simplified terms) does not depend on which other tasks ran before it, and tasks run
+# in parallel.  The z3 objects stay in the child; plain records come back.
+class Rec:
+    """plain (picklable) stand-in for an obligation or cover after its verdict is known"""
+
+    def __init__(self, **kw):
+        self.__dict__.update(kw)
+
+
+_ISO = {}
+
+
+def _iso_child(i):
+    import traceback as tb
+    from . import solve
+    task = _ISO["tasks"][i]
+    label = getattr(task, "label", getattr(task, "name", "?"))
+    try:
+        r = run_task(task)
+    except Exception:
+        return dict(label=label, undecided="engine error: " + tb.format_exc()[-600:], info=None, obls=[], verdicts=[], covers=[])
+    give_up = None
+    hf = _ISO.get("harness_file")
+    if hf:
+        def give_up(fn_label, _c={}):
+            import json
+            import os
+            if "h" not in _c:
+                if not os.path.exists(hf):
+                    return False
+                try:
+                    with open(hf) as f:
+                        _c["h"] = json.load(f)
+                except Exception:
+                    return False
+            short = fn_label.split(".")[-1].split("[")[0]
+            return any(short and short in (f.get("function", "") + " " + c.get("name", "")) for c in _c["h"].get("clauses", []) for f in c.get("failures", [])
+                       if not str(f.get("signature", "")).startswith("F-"))
+    vs = solve.discharge(r.obls, timeout_s=_ISO["timeout"], all_backends=_ISO["all_backends"], give_up=give_up, jobs=_ISO["jobs"]) if r.obls else []
+    cs = solve.discharge(r.covers, timeout_s=_ISO["cover_timeout"], jobs=_ISO["jobs"]) if r.covers else []
+    obls = [Rec(name=o.name, kind=o.kind, fn=o.fn, note=o.note, line=getattr(o, "line", 0), goal=str(o.goal)[:400], n_hyps=len(o.hyps)) for o in r.obls]
+    return dict(label=r.label, undecided=r.undecided, info=r.info, obls=obls, verdicts=vs, covers=cs)
+
+
+def run_isolated(tasks, timeout_s=20, all_backends=False, harness_file=None, procs=6, jobs=8, cover_timeout=3):
+    """[(label, undecided, info, obls, verdicts, covers)] per task, in task order"""
+    import multiprocessing
+    from . import solve
+    ctx = multiprocessing.get_context("fork")
+    solve.SEM = ctx.Semaphore(16)
+    _ISO.update(tasks=tasks, timeout=timeout_s, all_backends=all_backends, harness_file=harness_file, jobs=jobs, cover_timeout=cover_timeout)
+    if not tasks:
+        return []
+    with ctx.Pool(processes=min(procs, len(tasks)), maxtasksperchild=1) as pool:
+        return pool.map(_iso_child, range(len(tasks)), chunksize=1)
